@@ -178,6 +178,79 @@
   if (pre.opaque) CHECK(!rv && st_equal(&pre, &post), "opaque path: host setters do nothing");
   CHECK(FRAME(F_HOST | (OP_SET_HOST ? F_PORT : 0)), "frame: every other component unchanged");
   if (rv && !sl_equal(&pre, g_hostname(&pre), &post, g_hostname(&post))) REACH("host changed");
+#elif defined(OP_EDIT)
+  /* internal editors: INV is preserved (checked above), the edited slot holds what the caller passed, every other
+   * component is unchanged, and the length changes by exactly the slot difference */
+#define SLOT_IS(g, ptr, len, msg) do { CHECK((g).e - (g).b == (len), msg " (length)"); \
+    if ((g).e - (g).b == (len) && (g).e <= BN) CHECK(h_eq(post.buf + ((g).b < BN ? (g).b : 0), (ptr), (len)), msg " (bytes)"); } while (0)
+#define SLOT_APPENDED(g0, g, msg) do { CHECK((g).e - (g).b == (g0).e - (g0).b + M, msg " (length)"); \
+    if ((g).e - (g).b == (g0).e - (g0).b + M && (g).e <= BN) { \
+      CHECK(h_eq(post.buf + ((g).b < BN ? (g).b : 0), pre.buf + ((g0).b < BN ? (g0).b : 0), (g0).e - (g0).b), msg " (old part)"); \
+      CHECK(h_eq(post.buf + (((g).b + ((g0).e - (g0).b)) < BN ? ((g).b + ((g0).e - (g0).b)) : 0), I.val, M), msg " (appended part)"); } } while (0)
+#if OP_EDIT == E_CLEAR_HOSTNAME
+  { struct slice h = g_hostname(&post), h0 = g_hostname(&pre);
+    CHECK(h.b == h.e, "host is empty afterwards");
+    CHECK(post.L + (h0.e - h0.b) == pre.L, "exactly the host was removed");
+    CHECK(post.host_type == 0, "an empty host is neither IPv4 nor IPv6");
+    CHECK(FRAME(F_HOST), "frame: every other component unchanged");
+    CHECK(inv_has_authority(&pre) == inv_has_authority(&post), "the authority marker stays");
+    if (h0.e > h0.b && (SS(&pre) != OMIT || HH(&pre) != OMIT)) REACH("a host in front of a query or fragment was removed"); }
+#elif OP_EDIT == E_CLEAR_PASSWORD
+  { struct slice g = g_password(&post), g0 = g_password(&pre);
+    CHECK(g.b == g.e, "password is empty afterwards");
+    CHECK(post.L + (g0.e - g0.b) + (g0.e > g0.b ? 1 : 0) == pre.L, "exactly ':' + password was removed");
+    CHECK(FRAME(F_PASS), "frame: every other component unchanged");
+    if (g0.e > g0.b) REACH("a password was removed"); }
+#elif OP_EDIT == E_UPDATE_USERNAME
+  { struct slice g = g_username(&post); SLOT_IS(g, I.val, M, "username equals the value");
+    CHECK(FRAME(F_USER), "frame: every other component unchanged");
+    if (M > 0 && UE(&pre) == PE(&pre) + 2 && HS(&pre) == UE(&pre)) REACH("credentials introduced ('@' inserted)"); }
+#elif OP_EDIT == E_UPDATE_PASSWORD
+  { struct slice g = g_password(&post); SLOT_IS(g, I.val, M, "password equals the value");
+    CHECK(FRAME(F_PASS), "frame: every other component unchanged");
+    if (M == 0 && HS(&pre) > UE(&pre) && UE(&pre) == PE(&pre) + 2) REACH("last credential removed ('@' dropped)"); }
+#elif OP_EDIT == E_APPEND_USERNAME
+  { struct slice g = g_username(&post), g0 = g_username(&pre); SLOT_APPENDED(g0, g, "username equals old username + value");
+    CHECK(FRAME(F_USER), "frame: every other component unchanged"); }
+#elif OP_EDIT == E_APPEND_PASSWORD
+  { struct slice g = g_password(&post), g0 = g_password(&pre); SLOT_APPENDED(g0, g, "password equals old password + value");
+    CHECK(FRAME(F_PASS), "frame: every other component unchanged"); }
+#elif OP_EDIT == E_UPDATE_HOSTNAME
+  { struct slice g = g_hostname(&post); SLOT_IS(g, I.val, M, "host equals the value");
+    CHECK(inv_has_authority(&post), "the URL has an authority afterwards");
+    CHECK(FRAME(F_HOST), "frame: every other component unchanged (credentials keep their '@')");
+    if (UE(&pre) > PE(&pre) + 2 || HS(&pre) > UE(&pre)) REACH("host replaced behind credentials"); }
+#elif OP_EDIT == E_UPDATE_PORT
+  CHECK(PORT(&post) == I.p0, "port equals the value");
+  CHECK(FRAME(F_PORT), "frame: every other component unchanged");
+  if (PORT(&pre) != OMIT && I.p0 != OMIT) REACH("a port replaced a port");
+#elif OP_EDIT == E_AUTHORITY_NO_GUARD
+  CHECK(inv_has_authority(&post), "the URL has an authority afterwards");
+  CHECK(FRAME(F_HOST), "frame: every other component unchanged (the path keeps its bytes, the guard is gone)");
+  if (inv_has_authority(&pre)) CHECK(st_equal(&pre, &post), "already has an authority: nothing changes");
+  else { CHECK(g_hostname(&post).b == g_hostname(&post).e, "the new authority has an empty host");
+         CHECK(post.L == pre.L + 2 - (PS(&pre) == PE(&pre) + 2 ? 2 : 0), "'//' inserted, '/.' guard removed"); }
+  if (!inv_has_authority(&pre) && PS(&pre) == PE(&pre) + 2) REACH("a guarded path received an authority");
+#elif OP_EDIT == E_UPDATE_PATHNAME
+  { struct slice g = g_pathname(&post); SLOT_IS(g, I.val, M, "path equals the value");
+    CHECK(FRAME(F_PATH), "frame: every other component unchanged");
+    if (!inv_has_authority(&pre) && M >= 2 && I.val[1] == '/') REACH("a '//' path without authority was guarded"); }
+#elif OP_EDIT == E_APPEND_PATHNAME
+  { struct slice g = g_pathname(&post), g0 = g_pathname(&pre); SLOT_APPENDED(g0, g, "path equals old path + value");
+    CHECK(FRAME(F_PATH), "frame: every other component unchanged"); }
+#elif OP_EDIT == E_UPDATE_HASH
+  { uint8_t enc[3 * MM + 1];
+    uint64_t el = ref_percent_encode(I.val, M, SET_FRAGMENT, enc);
+    CHECK(HH(&post) != OMIT && post.L - HH(&post) == el + 1, "fragment slot = '#' + encoded value (length)");
+    if (HH(&post) != OMIT && post.L - HH(&post) == el + 1 && post.L <= BN) CHECK(h_eq(post.buf + HH(&post) + 1, enc, el), "fragment slot = '#' + encoded value (bytes)");
+    CHECK(FRAME(F_HASH), "frame: every other component unchanged"); }
+#elif OP_EDIT == E_SET_SCHEME
+  CHECK(PE(&post) == M + 1, "scheme slot has the length of the value + ':'");
+  if (PE(&post) == M + 1) CHECK(h_eq(post.buf, I.val, M), "scheme equals the value");
+  CHECK(post.type == ref_scheme_type(I.val, M), "type names the new scheme");
+  CHECK(FRAME(F_SCHEME), "frame: every other component unchanged");
+  if (PE(&post) != PE(&pre)) REACH("scheme length changed");
+#endif
 #elif defined(OP_FRAME_ONLY)
   ATOMIC();
   if (rv) REACH("operation succeeded");
